@@ -34,6 +34,10 @@ def _nan(x):
     return isinstance(x, float) and math.isnan(x)
 
 
+def _inf(x):
+    return isinstance(x, float) and math.isinf(x)
+
+
 def c14_fva(E, procs=(2,), templates=(("T2", ("EX_A",)),), nitems=2):
     env.for_path(E)
     _install_pool(E)
@@ -41,6 +45,11 @@ def c14_fva(E, procs=(2,), templates=(("T2", ("EX_A",)),), nitems=2):
     m = networks.build(tid)
     networks.symbolic_bounds(E, m, which=list(which))
     m.objective = {m.reactions.get_by_id(r): c for r, c in networks.T[tid]["objectives"][0].items()}
+    if tid == "T2" and E.flag("cycle_without_bounds"):
+        # R1 forwards with R2 backwards is a cycle no bound limits: the extreme of R1 is infinite.  The unchanged code refuses
+        # (OptimizationError) whatever the order; code that answers must answer the same in every order (sixth seed round)
+        m.reactions.R1.upper_bound = float("inf")
+        m.reactions.R2.lower_bound = -float("inf")
     ids = [r.id for r in m.reactions][:nitems]
     perm = list(E.pick("item_order", list(itertools.permutations(ids))[:: max(1, math.factorial(len(ids)) // 3)]))
     p = E.pick("processes", list(procs))
@@ -62,12 +71,16 @@ def c14_fva(E, procs=(2,), templates=(("T2", ("EX_A",)),), nitems=2):
     for i, rid in enumerate(perm):
         for col in ("minimum", "maximum"):
             a, b = serial.at[rid, col], par[col].iloc[i]
+            if _inf(a) or _inf(b):
+                E.prove(_inf(a) and _inf(b) and a == b, "parallel=serial", reaction=rid, what=col, processes=p, row=i)
+                continue
             E.prove((_nan(a) and _nan(b)) or E.eq(a, b), "parallel=serial", reaction=rid, what=col, processes=p, row=i)
     # asking for one item alone gives the same value
     one = ids[E.choice("single_item", len(ids), ids)]
     alone = flux_variability_analysis(m, reaction_list=[one], processes=1)
     for col in ("minimum", "maximum"):
-        E.prove(E.eq(alone.at[one, col], par[col].iloc[perm.index(one)]), "item-alone=item-in-list", reaction=one, what=col)
+        a, b = alone.at[one, col], par[col].iloc[perm.index(one)]
+        E.prove((a == b) if (_inf(a) or _inf(b)) else E.eq(a, b), "item-alone=item-in-list", reaction=one, what=col)
 
 
 def c14_deletion(E, procs=(2,)):
